@@ -57,20 +57,10 @@ func (c *chState) pubOf(ver uint64) *pubRec {
 	return nil
 }
 
-// okStop returns the successful StopWatching of the channel, if any.
-func (c *chState) okStop() *opRec {
-	for _, r := range c.stops {
-		if r.ret > 0 && r.err == nil && r.panicked == "" {
-			return r
-		}
-	}
-	return nil
-}
-
 // failedStopBefore reports whether a StopWatching of the channel that did not
 // succeed (refused, or panicked) was invoked before tick t.
 func (c *chState) failedStopBefore(t int64) bool {
-	for _, r := range c.stops {
+	for _, r := range c.allStops() {
 		if r.inv < t && (r.err != nil || r.panicked != "") {
 			return true
 		}
@@ -93,22 +83,38 @@ func reported(e *evRec) int64 {
 	return e.tInj
 }
 
-// stopRaces: a successful StopWatching(X) was invoked before the handler of e
-// returned: may-zone (the event may be dropped with the closing subscription,
-// or its handler may be cancelled while waiting for the lock).
+// stopRaces: the successful StopWatching(X) that ended the watching session
+// of e was invoked before the handler of e returned: may-zone (the event may
+// be dropped with the closing subscription, or its handler may be cancelled
+// while waiting for the lock).
 func (h *harness) stopRaces(e *evRec) bool {
-	if st := h.ch[e.k].okStop(); st != nil && st.inv < doneOrInf(e) {
+	if e.ep == nil {
+		return false
+	}
+	if st := e.ep.okStop(); st != nil && st.inv < doneOrInf(e) {
 		return true
 	}
 	return false
 }
 
-// alreadyNewer: a successful Register covering X with a version above e's had
-// returned before e was reported ("the watcher has already registered
-// something newer").
+// sessionStart is the tick from which Register calls belong to the watching
+// session of e: calls started after its StartWatching returned.
+func sessionStart(e *evRec) int64 {
+	if e.ep == nil || e.ep.start.ret == 0 {
+		return inf
+	}
+	return e.ep.start.ret
+}
+
+// alreadyNewer: during the watching session of e, a successful Register
+// covering X with a version above e's had returned before e was reported
+// ("the watcher has already registered something newer"). Registrations of an
+// earlier session of a re-watched sub-channel are a may-zone: they excuse a
+// missing refutation (see must-refute) but do not make a refutation spurious.
 func (h *harness) alreadyNewer(e *evRec) bool {
+	from := sessionStart(e)
 	for _, c := range h.calls {
-		if c.ok && c.end > 0 && c.end < reported(e) {
+		if c.ok && c.end > 0 && c.end < reported(e) && c.start > from {
 			if v, ok := c.versionOf(e.k); ok && v > e.ver {
 				return true
 			}
@@ -145,7 +151,7 @@ func (h *harness) check() {
 	// ---- StopWatching results: refused stop, repeat, final success -------------
 	p := h.ch[0]
 	refusedSeen := false
-	for _, r := range p.stops {
+	for _, r := range p.allStops() {
 		h.evals++
 		if r.panicked != "" {
 			h.fail("C05.panic@StopWatching", "StopWatching(P) panicked: %s", r.panicked)
@@ -159,26 +165,24 @@ func (h *harness) check() {
 		definite, possible := 0, 0
 		for j := 1; j <= maxSubs; j++ {
 			sj := h.ch[j]
-			if len(sj.starts) == 0 || sj.starts[0].err != nil {
-				continue
+			def, pos := false, false
+			for _, ep := range sj.eps {
+				if ep.start.err != nil || ep.start.panicked != "" || ep.start.inv > r.ret {
+					continue // failed start, or session began after the call
+				}
+				if st := ep.okStop(); st != nil && st.ret < r.inv {
+					continue // session over before the call
+				}
+				pos = true // the session overlaps the call
+				if ep.startedOK() && ep.start.ret < r.inv && (len(ep.stops) == 0 || ep.stops[0].inv > r.ret) {
+					def = true // watched during the whole call
+				}
 			}
-			st := sj.starts[0]
-			if st.ret == 0 || st.ret > r.inv {
-				possible++ // cannot happen: the driver does not overlap the two
-				continue
-			}
-			var firstStop *opRec
-			if len(sj.stops) > 0 {
-				firstStop = sj.stops[0]
-			}
-			switch {
-			case firstStop == nil || firstStop.inv > r.ret:
+			if def {
 				definite++
+			}
+			if pos {
 				possible++
-			case sj.okStop() != nil && sj.okStop().ret < r.inv:
-				// gone before the call
-			default:
-				possible++ // its StopWatching overlaps this call: may-zone
 			}
 		}
 		switch {
@@ -213,7 +217,7 @@ func (h *harness) check() {
 		}
 	}
 	for j := 1; j <= maxSubs; j++ {
-		for _, r := range h.ch[j].stops {
+		for _, r := range h.ch[j].allStops() {
 			h.evals++
 			switch {
 			case r.panicked != "":
@@ -227,14 +231,16 @@ func (h *harness) check() {
 	}
 	// a watched channel's event stream stays open
 	for k, c := range h.ch {
-		if c.streamClosed == 0 {
-			continue
-		}
-		if st := c.okStop(); st == nil || c.streamClosed < st.inv {
-			if c.failedStopBefore(c.streamClosed) {
-				h.fail("C05.refused-stop@stream-closed", "the client's event stream of %s was closed by a StopWatching that did not succeed", chName(k))
-			} else {
-				h.fail("C05.stream-closed", "the client's event stream of %s was closed without a StopWatching", chName(k))
+		for _, ep := range c.eps {
+			if ep.streamClosed == 0 {
+				continue
+			}
+			if st := ep.okStop(); st == nil || ep.streamClosed < st.inv {
+				if c.failedStopBefore(ep.streamClosed) {
+					h.fail("C05.refused-stop@stream-closed", "the client's event stream of %s was closed by a StopWatching that did not succeed", chName(k))
+				} else {
+					h.fail("C05.stream-closed", "the client's event stream of %s was closed without a StopWatching", chName(k))
+				}
 			}
 		}
 	}
@@ -299,13 +305,20 @@ func (h *harness) check() {
 		s.Count("probe.must_refute_checked", 1)
 		done := doneOrInf(e)
 		npar, _ := p.newestRet(d)
-		satisfied := false
+		satisfied, earlierSession := false, false
+		from := sessionStart(e)
 		for _, c := range h.calls {
 			if c.start > done {
 				continue
 			}
 			v, covers := c.versionOf(e.k)
 			if c.ok && covers && v > e.ver {
+				if c.start < from {
+					// registered in an earlier watching session of a re-watched
+					// sub-channel (or while it was de-registered): may-zone
+					earlierSession = true
+					continue
+				}
 				satisfied = true // registered something newer (before, or as the refutation)
 				break
 			}
@@ -321,6 +334,10 @@ func (h *harness) check() {
 			}
 		}
 		if satisfied {
+			continue
+		}
+		if earlierSession {
+			mayZones++
 			continue
 		}
 		src := "injected"
@@ -339,24 +356,27 @@ func (h *harness) check() {
 	// ---- relay ---------------------------------------------------------------------
 	relayed := 0
 	for k, c := range h.ch {
-		var lastReg int64 = -1
-		for _, r := range c.relays {
-			h.evals++
-			relayed++
-			e := h.evByObj[r.obj]
-			if e == nil || e.k != k {
-				h.fail("C05.relay-unknown", "the client of %s received an event the adjudicator never emitted for that channel: %T v%d", chName(k), r.obj, r.obj.Version())
-				continue
-			}
-			e.nRel++
-			if e.nRel > 1 {
-				h.fail("C05.relay-duplicate", "%s event v%d of %s reached the client %d times", kindNames[e.kind], e.ver, chName(k), e.nRel)
-			}
-			if e.kind == kindRegistered {
-				if int64(e.ver) <= lastReg {
-					h.fail("C05.relay-order", "registered event v%d of %s reached the client after registered event v%d", e.ver, chName(k), lastReg)
+		for _, ep := range c.eps {
+			// one event stream per watching session: order is checked per stream
+			var lastReg int64 = -1
+			for _, r := range ep.relays {
+				h.evals++
+				relayed++
+				e := h.evByObj[r.obj]
+				if e == nil || e.k != k || e.ep != ep {
+					h.fail("C05.relay-unknown", "the client of %s received an event the adjudicator never emitted for that channel in this watching session: %T v%d", chName(k), r.obj, r.obj.Version())
+					continue
 				}
-				lastReg = int64(e.ver)
+				e.nRel++
+				if e.nRel > 1 {
+					h.fail("C05.relay-duplicate", "%s event v%d of %s reached the client %d times", kindNames[e.kind], e.ver, chName(k), e.nRel)
+				}
+				if e.kind == kindRegistered {
+					if int64(e.ver) <= lastReg {
+						h.fail("C05.relay-order", "registered event v%d of %s reached the client after registered event v%d", e.ver, chName(k), lastReg)
+					}
+					lastReg = int64(e.ver)
+				}
 			}
 		}
 	}
@@ -454,44 +474,95 @@ func (h *harness) checkShape(c *callRec, d int64, mayZones *int64) {
 			return
 		}
 		v := ss.State.Version
-		var firstStop *opRec
-		if len(x.stops) > 0 {
-			firstStop = x.stops[0]
+		// Which transaction of S_k the statement prescribes depends on whether S_k
+		// was watched while the tree was collected, i.e. somewhere in the window
+		// [d, call start]. Every status S_k can have had in that window
+		// contributes one acceptable interval of versions.
+		type alt struct {
+			lo, hi   uint64
+			archived bool
 		}
-		st := x.okStop()
-		switch {
-		case firstStop == nil || firstStop.inv > c.start:
+		var alts []alt
+		live := false
+		for n, ep := range x.eps {
+			if ep.start.err != nil || ep.start.panicked != "" {
+				continue
+			}
+			// possibly watched: from the invocation of StartWatching to the return
+			// of the StopWatching that succeeded
+			pwEnd := inf
+			st := ep.okStop()
+			if st != nil {
+				pwEnd = st.ret
+			}
+			if ep.start.inv <= c.start && pwEnd >= d {
+				live = true
+			}
+			// possibly de-registered after this session: from the invocation of a
+			// StopWatching that succeeded (or has not returned) to the return of the
+			// next StartWatching. The archive holds something for S_k only if it was
+			// locked in P's newest transaction at that invocation.
+			for _, sr := range ep.stops {
+				if !(sr == st || sr.ret == 0) || !sr.archived {
+					continue
+				}
+				pdEnd := inf
+				if n+1 < len(x.eps) && x.eps[n+1].start.ret > 0 {
+					pdEnd = x.eps[n+1].start.ret
+				}
+				if sr.inv <= c.start && pdEnd >= d {
+					alo, _ := x.newestRet(sr.inv)
+					end := sr.ret
+					if end == 0 {
+						end = inf
+					}
+					ahi, _ := x.newestInv(end)
+					alts = append(alts, alt{alo, ahi, true})
+				}
+			}
+		}
+		if live {
 			// watched: newest published, with the may-zone of racing publishes
 			slo, _ := x.newestRet(d)
 			shi, _ := x.newestInv(c.start)
-			if v < slo || v > shi {
-				h.fail("C05.register-shape@substate-stale", "Register call %s: watched sub-channel %s with v%d, but its newest published transaction lay between v%d and v%d", what, chName(k), v, slo, shi)
-				return
-			}
-		case st != nil && st == firstStop && st.ret < d:
-			// de-registered while locked: exactly the archived last transaction
-			alo, _ := x.newestRet(st.inv)
-			ahi, _ := x.newestInv(st.ret)
-			if alo != ahi {
+			alts = append(alts, alt{slo, shi, false})
+		}
+		if len(alts) == 0 {
+			h.s.Count("probe.out_of_scope_lock", 1)
+			continue // cannot happen: the driver locks only watched or archived sub-channels
+		}
+		if len(alts) > 1 {
+			*mayZones++ // a StopWatching / re-start of S_k overlaps the collection
+		}
+		okV := false
+		desc := ""
+		for _, a := range alts {
+			if a.archived && a.lo != a.hi {
 				*mayZones++ // a Publish raced with the StopWatching
 			}
-			if v < alo || v > ahi {
-				h.fail("C05.register-shape@archived-substate", "Register call %s: de-registered sub-channel %s with v%d, but its archived last transaction is v%d", what, chName(k), v, alo)
-				return
+			if v >= a.lo && v <= a.hi {
+				okV = true
+				if a.archived && len(alts) == 1 {
+					h.s.Count("probe.archived_state_used", 1)
+				}
 			}
-			h.s.Count("probe.archived_state_used", 1)
-		default:
-			// its StopWatching overlaps the handling: archived or live state
-			*mayZones++
-			slo, _ := x.newestRet(d)
-			if a, ok := x.newestRet(firstStop.inv); ok && a < slo {
-				slo = a
+			kind := "newest published (watched)"
+			if a.archived {
+				kind = "archived at de-registration"
 			}
-			shi, _ := x.newestInv(c.start)
-			if v < slo || v > shi {
-				h.fail("C05.register-shape@substate-stale", "Register call %s: sub-channel %s (being de-registered) with v%d, expected between v%d and v%d", what, chName(k), v, slo, shi)
-				return
+			if a.lo == a.hi {
+				desc += fmt.Sprintf("[%s: v%d] ", kind, a.lo)
+			} else {
+				desc += fmt.Sprintf("[%s: v%d..v%d] ", kind, a.lo, a.hi)
 			}
+		}
+		if !okV {
+			check := "C05.register-shape@substate-stale"
+			if !live {
+				check = "C05.register-shape@archived-substate"
+			}
+			h.fail(check, "Register call %s: sub-channel %s with v%d, acceptable: %s", what, chName(k), v, desc)
+			return
 		}
 	}
 }
